@@ -201,6 +201,31 @@ fn c06(rng: &mut Rng, out: &mut Fails) {
         let disp = fam.has_dispersion(); let wd = matches!(name, "Gaussian" | "QuasiPoisson" | "Gamma");
         if disp != wd { fail(out, "ExponentialFamily::has_dispersion", "C06.family.dispersion", name.into(), format!("{}", disp), format!("{}", wd)); }
     }
+    // remaining deviance tables and the penalised deviance
+    {
+        let yb = [0.0, 1.0, 1.0, 0.0]; let mb = [0.2, 0.7, 0.9, 0.4];
+        let bd: f64 = -2. * yb.iter().zip(&mb).map(|(a, b): (&f64, &f64)| a * b.ln() + (1. - a) * (1. - b).ln()).sum::<f64>();
+        if !close(ExponentialFamily::Bernoulli.deviance(&yb, &mb), bd, 1e-12) { fail(out, "ExponentialFamily::deviance", "C06.family.bernoulli.deviance", format!("y={:?} mu={:?}", yb, mb), format!("{}", ExponentialFamily::Bernoulli.deviance(&yb, &mb)), format!("{}", bd)); }
+        let yg = [0.5, 1.0, 2.5, 4.0]; let mg = [0.7, 0.8, 2.0, 5.0];
+        let gd: f64 = 2. * yg.iter().zip(&mg).map(|(a, b): (&f64, &f64)| (a - b) / b - (a / b).ln()).sum::<f64>();
+        for fam in [ExponentialFamily::Gamma, ExponentialFamily::Exponential] {
+            if !close(fam.deviance(&yg, &mg), gd, 1e-12) { fail(out, "ExponentialFamily::deviance", "C06.family.gamma.deviance", format!("{:?} y={:?} mu={:?}", fam, yg, mg), format!("{}", fam.deviance(&yg, &mg)), format!("{}", gd)); }
+        }
+        if !close(ExponentialFamily::QuasiPoisson.deviance(&y, &mu), pd, 1e-12) { fail(out, "ExponentialFamily::deviance", "C06.family.poisson.deviance", format!("QuasiPoisson y={:?} mu={:?}", y, mu), format!("{}", ExponentialFamily::QuasiPoisson.deviance(&y, &mu)), format!("{}", pd)); }
+        let coef = [3.0, 1.0, -2.0, 2.0]; let al = 0.7;
+        let want = pd + al * (1.0f64 + 4.0 + 4.0).sqrt();
+        let got = ExponentialFamily::Poisson.penalized_deviance(&y, &mu, al, &coef);
+        if !close(got, want, 1e-12) { fail(out, "ExponentialFamily::penalized_deviance", "C06.pdev", format!("y={:?} mu={:?} alpha={} coef={:?}", y, mu, al, coef), format!("{}", got), format!("{}", want)); }
+    }
+    // an unconverged fit reports an error, not a wrong answer
+    {
+        let n = 12; let p = 2; let mut x = vec![0.; n * p]; let mut yy = vec![0.; n];
+        for i in 0..n { x[i * p] = 1.; x[i * p + 1] = (i as f64) / 4. - 1.; yy[i] = ((i % 5) + 1) as f64 * if i % 2 == 0 { 1. } else { 3. }; }
+        for max_iter in [1usize, 2] {
+            let r = catch(|| { let mut g = GLM::new(ExponentialFamily::Poisson); g.set_tolerance(1e-14); g.fit(&x, &yy, max_iter).is_ok() });
+            if r == Some(true) { fail(out, "GLM::fit", "C06.fit.unconverged", format!("Poisson, n=12, p=2, tolerance 1e-14, max_iter={}", max_iter), "Ok".into(), "Err (not converged)".into()); }
+        }
+    }
     // fits: score equations, ridge with intercept unpenalised, Gaussian = least squares, inference
     for case in 0..24 {
         let n = 30 + rng.below(60); let p = 2 + rng.below(2);
